@@ -157,3 +157,42 @@ def resolve_upvars(cl, tree, env):
     if tree[0] in ('int', 'str', 'item', 'fnref', 'float', 'const', 'arg', 'var', 'bytes'):
         return tree
     return tuple([tree[0]] + [resolve_upvars(cl, x, env) if isinstance(x, tuple) else x for x in tree[1:]])
+
+
+def with_helpers(prog, crate_name, anchor_re):
+    """Views of the functions whose path matches `anchor_re` with their private same-module helper functions inlined,
+    so that a rule about "what this unwinder / reader / builder does" survives an extract-function refactoring.
+    Returns (views: path -> Fn, absorbed: set of helper paths that are called only from anchors or absorbed helpers)."""
+    import mirq
+    c = prog.crate(crate_name)
+    rx = re.compile(anchor_re)
+
+    def module(path):
+        p = re.sub(r'(::\{(closure|coroutine)#\d+\})+$', '', path)
+        return p.rsplit('::', 1)[0]
+    anchors = [f for f in c.fns if rx.search(f.path)]
+    amods = set(module(f.path) for f in anchors)
+
+    def is_helper(g):
+        return g.kind == 'fn' and not rx.search(g.path) and not g.raw.get('pub') and module(g.path) in amods and not (g.mac and g.mac.startswith('derive('))
+    # callers of each helper
+    callers = {}
+    for f in c.fns:
+        for b, t in f.calls():
+            g = c.fn(f.callee(t))
+            if g is not None and is_helper(g):
+                callers.setdefault(g.path, set()).add(f.path)
+    absorbed = set()
+    changed = True
+    while changed:
+        changed = False
+        for h, cs in callers.items():
+            if h in absorbed:
+                continue
+            if cs and all(rx.search(x) or x in absorbed for x in cs):
+                absorbed.add(h)
+                changed = True
+    views = {}
+    for f in anchors:
+        views[f.path] = mirq.inline_calls(prog, f, lambda g: g.path in absorbed and module(g.path) == module(f.path), depth=3, crates=[crate_name])
+    return views, absorbed
